@@ -25,7 +25,8 @@ func c07Run(src string, input []proto.Message, copts []fhirpath.CompileOption) (
 		if cerr != nil {
 			return
 		}
-		out, eerr = verifhook.Evaluate(e, input, evalopts.EnvVariable("ve", system.Collection{}))
+		out, eerr = verifhook.Evaluate(e, input, evalopts.EnvVariable("ve", system.Collection{}),
+			evalopts.EnvVariable("vne", system.Collection{system.Collection{}, system.Collection{system.Collection{}}}))
 	})
 	switch {
 	case panicked:
@@ -49,6 +50,9 @@ func runC07(cfg config) {
 		{"literal", "{}", "{}"},
 		{"absent-path", "Patient.maritalStatus", "%context.maritalStatus"},
 		{"env", "%ve", "%ve"},
+		{"env-nested", "%vne", "%vne"}, // empty only once nested empty collections are spliced in
+		{"function-result", "Patient.name.given.skip(9)", "%context.name.given.skip(9)"},
+		{"filter-result", "Patient.name.where(false)", "%context.name.where(false)"},
 	}
 	// ---- operators ------------------------------------------------------------------------
 	type op struct{ coq, fmtSrc, operand string }
@@ -145,17 +149,19 @@ func runC07(cfg config) {
 						key = fmt.Sprintf("in/%v/%s/%d/%s", exp, n, k, e.kind)
 					}
 					sink.add(fmt.Sprintf("CInput %s \"%s\"%%string %s, %s", coqBool(exp), n, coqZ(int64(k)), oc), src+" => "+human, "input/"+oc, key)
-					// (b) empty argument at each position
+					// (b) empty argument at each position, for the usual receiver and for degenerate ones of the same type
 					for pos := 0; pos < k; pos++ {
-						parts := splitArgs(argsText[len(n)+1 : len(argsText)-1])
-						parts[pos] = e.inner
-						src := recv + "." + n + "(" + strings.Join(parts, ", ") + ")"
-						oc, human := c07Run(src, input, copts)
-						key := ""
-						if oc != "ORejected" {
-							key = fmt.Sprintf("arg/%v/%s/%d/%d/%s", exp, n, k, pos, e.kind)
+						for ri, rv := range c07Receivers(recv) {
+							parts := splitArgs(argsText[len(n)+1 : len(argsText)-1])
+							parts[pos] = e.inner
+							src := rv + "." + n + "(" + strings.Join(parts, ", ") + ")"
+							oc, human := c07Run(src, input, copts)
+							key := ""
+							if oc != "ORejected" {
+								key = fmt.Sprintf("arg/%v/%s/%d/%d/%s/%d", exp, n, k, pos, e.kind, ri)
+							}
+							sink.add(fmt.Sprintf("CArg %s \"%s\"%%string %s %s, %s", coqBool(exp), n, coqZ(int64(k)), coqZ(int64(pos)), oc), src+" => "+human, "arg/"+oc, key)
 						}
-						sink.add(fmt.Sprintf("CArg %s \"%s\"%%string %s %s, %s", coqBool(exp), n, coqZ(int64(k)), coqZ(int64(pos)), oc), src+" => "+human, "arg/"+oc, key)
 					}
 				}
 			}
@@ -186,4 +192,20 @@ func splitArgs(s string) []string {
 		parts = append(parts, strings.TrimSpace(s[start:]))
 	}
 	return parts
+}
+
+// c07Receivers: the receiver a call is usually made on, and degenerate receivers of the same type (the empty string,
+// zero, a single item): an empty argument gives the same outcome whatever the receiver holds.
+func c07Receivers(recv string) []string {
+	switch {
+	case strings.HasPrefix(recv, "'"):
+		return []string{recv, "''", "'é'"}
+	case recv == "4.5" || recv == "4.0" || recv == "4.567":
+		return []string{recv, "1.0"}
+	case recv == "5" || recv == "1":
+		return []string{recv, "0"}
+	case recv == "Patient.name":
+		return []string{recv, "Patient.name.first()", "Patient.name.given"}
+	}
+	return []string{recv}
 }
